@@ -30,16 +30,16 @@ var errInjectedWrite = errors.New("network is down (injected)")
 // Conn is a scripted net.PacketConn built on shim primitives: ReadFrom blocks on a
 // scheduler-owned queue, every WriteTo is a scheduling point and is logged.
 type Conn struct {
-	q        *vs.Chan[Datagram]
-	closedCh *vs.Chan[struct{}]
-	closed   bool
-	h        *History
-	WriteErr error
+	q         *vs.Chan[Datagram]
+	closedCh  *vs.Chan[struct{}]
+	closed    bool
+	h         *History
+	WriteErr  error
 	FailWrite map[int]bool // indices (0-based, in call order) of WriteTo calls that fail
 	nWrites   int
-	OnWrite  func(w Write)
+	OnWrite   func(w Write)
 	OnReadErr func() // called when a scripted read error is handed to the code under test
-	local    net.Addr
+	local     net.Addr
 }
 
 func NewConn(h *History) *Conn {
